@@ -179,7 +179,16 @@ impl Actor for LogActor {
     }
 }
 
+/// The message value that the actors' serializer refuses (the harness peers can still send it).
+pub const UNSERIALIZABLE: u32 = 13;
+fn ser_raw(m: &Wire) -> Result<Vec<u8>, serde_json::Error> {
+    serde_json::to_vec(m)
+}
+/// the serializer handed to `spawn`
 fn ser(m: &Wire) -> Result<Vec<u8>, serde_json::Error> {
+    if matches!(m, Wire::Data(v) if *v == UNSERIALIZABLE) {
+        return Err(<serde_json::Error as serde::ser::Error>::custom("this message cannot be serialized"));
+    }
     serde_json::to_vec(m)
 }
 fn de(b: &[u8]) -> Result<Wire, serde_json::Error> {
@@ -248,7 +257,7 @@ pub fn run_scenario(sc: &Scenario) -> Result<RunLog, Fail> {
             let (_, p, a, v) = pending[next];
             let (p, a) = (p % peers.len(), a % n);
             let payload = match v {
-                Some(v) => ser(&wire(v)).unwrap(),
+                Some(v) => ser_raw(&wire(v)).unwrap(),
                 None => b"\xff\x00 not json".to_vec(),
             };
             let _ = peers[p].send_to(&payload, table[a]);
@@ -267,7 +276,7 @@ pub fn run_scenario(sc: &Scenario) -> Result<RunLog, Fail> {
     let mut spawn_returned = false;
     while t1.elapsed() < Duration::from_secs(10) {
         for a in 0..n {
-            let _ = peers[0].send_to(&ser(&Wire::Poison).unwrap(), table[a]);
+            let _ = peers[0].send_to(&ser_raw(&Wire::Poison).unwrap(), table[a]);
         }
         for (k, p) in peers.iter().enumerate() {
             while let Ok((cnt, src)) = p.recv_from(&mut buf) {
@@ -341,6 +350,9 @@ pub fn judge(sc: &Scenario, r: &RunLog, missing: &mut Vec<String>) -> Result<(),
         for e in &r.log {
             for c in &e.cmds {
                 if let SCmd::Send(to, v) = c {
+                    if *v == UNSERIALIZABLE {
+                        continue; // not serializable: no datagram is owed
+                    }
                     if *to % r.table.len() == a {
                         *sent_to_me.entry((r.table[e.actor], *v)).or_insert(0) += 1;
                         // (a datagram emitted before the destination has bound its socket is
@@ -361,7 +373,13 @@ pub fn judge(sc: &Scenario, r: &RunLog, missing: &mut Vec<String>) -> Result<(),
                 ensure!(*k >= 0, "c17/on_msg-without-matching-datagram", "actor {} handled on_msg(src={}, {}) but no (further) datagram with that payload was sent to it from that address; sent to it: harness {:?}", a, src_addr, v, r.harness_sent);
             }
         }
+        // (a slow handler lets the socket's receive buffer fill up, and UDP may then drop
+        // datagrams legitimately: delivery is only demanded from scenarios without slow handlers)
+        let has_stall = sc.actors.iter().any(|a| a.on_start.iter().chain(a.on_msg.iter().flatten()).chain(a.on_timeout.iter().flatten()).any(|c| matches!(c, SCmd::Stall(_))));
         for ((src, v), k) in &sent_to_me {
+            if has_stall {
+                break;
+            }
             if *k > late.get(&(*src, *v)).copied().unwrap_or(0) {
                 missing.push(format!("{} datagram(s) Data({}) from {} to actor {} never reached on_msg", k, v, src, a));
             }
@@ -373,6 +391,9 @@ pub fn judge(sc: &Scenario, r: &RunLog, missing: &mut Vec<String>) -> Result<(),
         for e in &r.log {
             for c in &e.cmds {
                 if let SCmd::Send(to, v) = c {
+                    if *v == UNSERIALIZABLE {
+                        continue;
+                    }
                     if *to % r.table.len() == n + p {
                         *expect.entry((r.table[e.actor], *v)).or_insert(0) += 1;
                     }
@@ -438,7 +459,7 @@ impl SubCheck for Runtime {
         "udp_runtime_scenarios"
     }
     fn cases(&self, tier: Tier) -> u32 {
-        tier.pick(96, 1200)
+        tier.pick(128, 1200)
     }
     fn workers(&self) -> usize {
         8
@@ -452,10 +473,10 @@ impl SubCheck for Runtime {
                 let total = n + peers;
                 let cmd = move || {
                     prop_oneof![
-                        4 => (0..total, 0u32..50).prop_map(|(to, v)| SCmd::Send(to, v)),
+                        4 => (0..total, prop_oneof![9 => 0u32..50, 1 => Just(UNSERIALIZABLE)]).prop_map(|(to, v)| SCmd::Send(to, v)),
                         3 => (0u8..2, 5u64..40, 0u64..20).prop_map(|(t, lo, d)| SCmd::SetTimer(t, lo, lo + d)),
                         2 => (0u8..2).prop_map(SCmd::CancelTimer),
-                        1 => (10u64..60).prop_map(SCmd::Stall),
+                        2 => (10u64..60).prop_map(SCmd::Stall),
                     ]
                 };
                 let script = (proptest::collection::vec(cmd(), 0..4), proptest::collection::vec(proptest::collection::vec(cmd(), 0..3), 1..4), proptest::collection::vec(proptest::collection::vec(cmd(), 0..3), 2))
@@ -477,9 +498,20 @@ impl SubCheck for Runtime {
                     }
                     v
                 });
-                (scripts, Just(peers), proptest::collection::vec((0u64..150, 0..peers, 0..n, proptest::option::weighted(0.85, 0u32..50)), 1..10), 200u64..320)
+                (scripts, Just(peers), proptest::collection::vec((0u64..150, 0..peers, 0..n, proptest::option::weighted(0.85, 0u32..50)), 1..10), 200u64..320, proptest::bool::weighted(0.5))
             })
-            .prop_map(|(actors, peers, datagrams, run_ms)| Scenario { actors, peers, datagrams, run_ms })
+            .prop_map(|(mut actors, peers, datagrams, run_ms, slow_handlers)| {
+                // slow handlers are a per-scenario feature (delivery is not demanded from such scenarios)
+                if !slow_handlers {
+                    for a in actors.iter_mut() {
+                        a.on_start.retain(|c| !matches!(c, SCmd::Stall(_)));
+                        for r in a.on_msg.iter_mut().chain(a.on_timeout.iter_mut()) {
+                            r.retain(|c| !matches!(c, SCmd::Stall(_)));
+                        }
+                    }
+                }
+                Scenario { actors, peers, datagrams, run_ms }
+            })
             .boxed()
     }
     fn check(&self, sc: &Scenario, cov: &mut Cov) -> Result<(), Fail> {
@@ -516,6 +548,7 @@ impl SubCheck for Runtime {
         cov.label_if(timeouts > 0, "timer_fired");
         cov.label_if(actor_to_actor, "actor_to_actor_message");
         cov.label_if(cancels, "cancel_timer");
+        cov.label_if(r.log.iter().any(|e| e.cmds.iter().position(|c| matches!(c, SCmd::Send(_, v) if *v == UNSERIALIZABLE)).map_or(false, |i| i + 1 < e.cmds.len())), "unserializable_send_followed_by_other_commands");
         cov.label_if(r.log.iter().any(|e| e.cmds.iter().any(|c| matches!(c, SCmd::Stall(_)))), "slow_handler");
         // a handler that cancels or re-arms a timer whose deadline had already passed when it ran
         cov.label_if(overdue_timer_cancelled_or_rearmed(&r.log), "cancel_or_rearm_of_an_overdue_timer");
@@ -532,7 +565,7 @@ impl SubCheck for Runtime {
         Ok(())
     }
     fn mandatory(&self) -> Vec<&'static str> {
-        vec!["timer_fired", "actor_to_actor_message", "cancel_timer", "re_arm", "garbage_datagram", "send_to_harness_peer", "large_datagram_handled(>8KiB)", "slow_handler", "cancel_or_rearm_of_an_overdue_timer"]
+        vec!["timer_fired", "actor_to_actor_message", "cancel_timer", "re_arm", "garbage_datagram", "send_to_harness_peer", "large_datagram_handled(>8KiB)", "slow_handler", "cancel_or_rearm_of_an_overdue_timer", "unserializable_send_followed_by_other_commands"]
     }
 }
 
